@@ -107,27 +107,33 @@ def parseBof (data : Bytes) : Res Bool :=
     else if v = 0 then .ok (decide (dt ≠ 0x1000))
     else .ok true
 
-/-- the Lbl arm (0x0018): `(name, parse_defined_names(rgce))`.
+/-- the Lbl arm (0x0018): `(name, parse_defined_names(rgce))`; BIFF-aware since 4ee8ca8 (code page 1200 assumed for BIFF5).
     `nameReader` = `read_unicode_string_no_cch`. -/
 def parseLblWith (nameReader : Bytes → Nat → Res Text) (parseDn : Bytes → Res (Option Nat × Text))
-    (data : Bytes) : Res (Text × Option Nat × Text) :=
-  if data.length < 15 then .err s!"Len:Lbl:15:{data.length}"
+    (biff8 : Bool) (data : Bytes) : Res (Text × Option Nat × Text) :=
+  if data.length < 14 then .err s!"Len:Lbl:14:{data.length}"
   else
     let cch := byteAt data 3
     let cce := Biff.u16 (data.drop 4)
-    let nameLen := if byteAt data 14 % 2 = 1 then 2 * cch else cch
-    if data.length < max (15 + nameLen) cce then .err s!"Len:Lbl:{max (15 + nameLen) cce}:{data.length}"
+    if biff8 && data.length < 15 then .err s!"Len:Lbl:15:{data.length}"
     else
-      match nameReader (data.drop 14) cch with
-      | .ok name =>
-        match parseDn (data.drop (data.length - cce)) with
-        | .ok f => .ok (name, f)
+      -- BIFF8: flag byte + cch characters of 1 or 2 bytes; up to BIFF5: cch code-page bytes, no flag byte (4ee8ca8)
+      let nameEnd := if biff8 then 15 + (if byteAt data 14 % 2 = 1 then 2 * cch else cch) else 14 + cch
+      if data.length < max nameEnd cce then .err s!"Len:Lbl:{max nameEnd cce}:{data.length}"
+      else
+        let name : Res Text :=
+          if biff8 then nameReader (data.drop 14) cch
+          else .ok (Biff.decodeUtf16 (Biff.decodeTo ((data.drop 14).take cch) cch false).1)
+        match name with
+        | .ok name =>
+          match parseDn (data.drop (data.length - cce)) with
+          | .ok f => .ok (name, f)
+          | .err e => .err e
+          | .panic e => .panic e
+          | .outOfFuel => .outOfFuel
         | .err e => .err e
         | .panic e => .panic e
         | .outOfFuel => .outOfFuel
-      | .err e => .err e
-      | .panic e => .panic e
-      | .outOfFuel => .outOfFuel
 
 /-- `r.data[2..].chunks_exact(6).take(cxti).map(|xti| Xti { …, itab_first: read_i16(&xti[2..4]), … })`:
     the `itab_first` of every entry; a trailing chunk shorter than 6 bytes is ignored (since e1c36a3) -/
@@ -185,7 +191,7 @@ def xlsStep (nameReader : Bytes → Nat → Res Text) (parseDn : Bytes → Res (
   else if r.typ = 0x0809 then
     liftUnit (parseBof r.data) fun b => .ok (some { st with biff8 := b })
   else if r.typ = 0x0018 then
-    liftUnit (parseLblWith nameReader parseDn r.data) fun n => .ok (some { st with names := st.names ++ [n] })
+    liftUnit (parseLblWith nameReader parseDn st.biff8 r.data) fun n => .ok (some { st with names := st.names ++ [n] })
   else if r.typ = 0x0017 then
     liftUnit (parseExternSheet r.data) fun x => .ok (some { st with xtis := st.xtis ++ x })
   else if r.typ = 0x00FC then
